@@ -117,8 +117,9 @@ bool BufferedStream::match(int64_t& res, bool noSkipWs) {
 	if (s == '+' || s == '-') { rget(); }
 	if (!isDigit(peek())) { return false; }
 	for (res = toDigit(rget()); isDigit(peek()); ) {
-		res *= 10;
-		res += toDigit(rget());
+		int d = toDigit(rget());
+		// saturate instead of overflowing: callers range-check the result
+		res = res <= (INT64_MAX - d) / 10 ? (res * 10) + d : INT64_MAX;
 	}
 	if (s == '-') { res = -res; }
 	return true;
